@@ -220,3 +220,70 @@ def main():
 
 if __name__ == "__main__":
     main()
+
+
+# --------------------------------------------------------------------------------------------
+# Grammar.tla
+# --------------------------------------------------------------------------------------------
+def _q(s):
+    return '"' + s + '"'
+
+
+def _ver(v):
+    return "0" if v is None else str(int(round(float(v) * 100)))
+
+
+def _param(p):
+    if "seq" in p:
+        fields = ", ".join(f"[name |-> {_q(q['name'])}, type |-> {_q(q['type'])}]" for q in p["seq"])
+        return f"[name |-> {_q(p['name'])}, kind |-> \"seq\", type |-> \"\", n |-> 0, fields |-> <<{fields}>>]"
+    if "array" in p:
+        return f"[name |-> {_q(p['name'])}, kind |-> \"array\", type |-> {_q(p['type'])}, n |-> {p['array']}, fields |-> <<>>]"
+    return f"[name |-> {_q(p['name'])}, kind |-> \"scalar\", type |-> {_q(p['type'])}, n |-> 0, fields |-> <<>>]"
+
+
+def grammar_tla(g):
+    L = []
+    L.append("------------------------------- MODULE Grammar -------------------------------")
+    L.append("(* GENERATED by tools/gen_grammar.py from grammar/a2l_1_7_1.dsl (the frozen A2L 1.7.1 grammar) - do not edit.")
+    L.append("   Elem[tag] = [form, params, kids]; a param is [name, kind in {scalar, array, seq}, type, n, fields];")
+    L.append("   a kid is [tag, many, req, since, until] (versions as integers 150..171, 0 = unbounded);")
+    L.append("   Enum[type] = sequence of [item, since, until]. *)")
+    L.append("EXTENDS TLC")
+    tags = sorted(g["elements"])
+    rows = []
+    for t in tags:
+        e = g["elements"][t]
+        params = ", ".join(_param(p) for p in e["params"])
+        kids = ", ".join(f"[tag |-> {_q(c['tag'])}, many |-> {'TRUE' if c['mult'] == 'many' else 'FALSE'}, req |-> {'TRUE' if c['required'] else 'FALSE'}, "
+                         f"since |-> {_ver(c['since'])}, until |-> {_ver(c['until'])}]" for c in e["children"])
+        rows.append(f"  {_q(t)} :> [form |-> {_q(e['form'])}, params |-> <<{params}>>, kids |-> <<{kids}>>]")
+    L.append("Elem ==\n" + " @@\n".join(rows))
+    rows = []
+    for n in sorted(g["enums"]):
+        items = ", ".join(f"[item |-> {_q(i['item'])}, since |-> {_ver(i['since'])}, until |-> {_ver(i['until'])}]" for i in g["enums"][n])
+        rows.append(f"  {_q(n)} :> <<{items}>>")
+    L.append("Enum ==\n" + " @@\n".join(rows))
+    L.append("ScalarTypes == {" + ", ".join(_q(s) for s in sorted(SCALARS)) + "}")
+    L.append("IntTypes == {\"char\", \"int\", \"long\", \"int64\", \"uchar\", \"uint\", \"ulong\", \"uint64\"}")
+    L.append("Versions == {150, 151, 160, 161, 170, 171}")
+    L.append("=============================================================================")
+    return "\n".join(L) + "\n"
+
+
+def main2():
+    g = load()
+    out = os.path.join(VERIF, "spec", "Grammar.tla")
+    t = grammar_tla(g)
+    if "--check" in sys.argv:
+        cur = open(out).read() if os.path.exists(out) else ""
+        if cur != t:
+            print("spec/Grammar.tla is stale: run tools/gen_grammar.py")
+            sys.exit(2)
+    else:
+        open(out, "w").write(t)
+        print("wrote", out)
+
+
+if __name__ == "__main__":
+    main2()
